@@ -1314,9 +1314,11 @@ fn write_central_zip64_extra_field<T: Write>(writer: &mut T, file: &ZipFileData)
     // only appear if the corresponding Local or Central
     // directory record field is set to 0xFFFF or 0xFFFFFFFF.
     let mut size = 0;
-    let uncompressed_size = file.uncompressed_size > spec::ZIP64_BYTES_THR;
-    let compressed_size = file.compressed_size > spec::ZIP64_BYTES_THR;
-    let header_start = file.header_start > spec::ZIP64_BYTES_THR;
+    // A 32-bit field holding exactly 0xFFFFFFFF is indistinguishable from the ZIP64 marker, so
+    // such a value has to go into the ZIP64 record as well.
+    let uncompressed_size = file.uncompressed_size >= spec::ZIP64_BYTES_THR;
+    let compressed_size = file.compressed_size >= spec::ZIP64_BYTES_THR;
+    let header_start = file.header_start >= spec::ZIP64_BYTES_THR;
     if uncompressed_size {
         size += 8;
     }
